@@ -264,6 +264,8 @@ func (cc *Conn) AsyncPing(receivedPong func()) (func(), error) {
 		removeTokenHandler()
 		return nil, fmt.Errorf("cannot write request: %w", err)
 	}
+	// the caller may be a handler that now waits for the pong: messages queued behind it must not stall
+	cc.receivedMessageReader.TryToReplaceLoop()
 	return removeTokenHandler, nil
 }
 
